@@ -137,6 +137,15 @@ pub struct EntitySpec {
     /// bytes of an ExtraByte fault always sit in a segment of their own when this is >= 2.
     #[serde(default)]
     pub segments: u8,
+    /// The range streams implement `Stream::size_hint` by counting the data chunks (and tail
+    /// steps) still to come, ignoring any injected after-the-end item - what a hand-written
+    /// buffered stream typically reports. Default: the trait's default hint (0, None).
+    #[serde(default)]
+    pub counting_hint: bool,
+    /// After an injected error the stream keeps failing on every further poll instead of ending
+    /// (like `ChunkedReadFile`, which retries the read); still never yields data again.
+    #[serde(default)]
+    pub unfused_errors: bool,
 }
 
 impl EntitySpec {
@@ -150,6 +159,8 @@ impl EntitySpec {
             faults: vec![],
             tail: vec![],
             segments: 0,
+            counting_hint: false,
+            unfused_errors: false,
         }
     }
     pub fn etag_is_strong(&self) -> bool {
@@ -207,10 +218,19 @@ struct PlanStream {
     extra_chunk_done: bool,
     tail_idx: usize,
     done: bool,
+    failed_with: Option<u32>,
 }
 
 impl Stream for PlanStream {
     type Item = Result<SegBytes, HarnessError>;
+
+    fn size_hint(&self) -> (usize, Option<usize>) {
+        if self.spec.counting_hint {
+            self.counted_hint()
+        } else {
+            (0, None)
+        }
+    }
 
     fn poll_next(self: Pin<&mut Self>, cx: &mut Context<'_>) -> Poll<Option<Self::Item>> {
         let this = Pin::into_inner(self);
@@ -220,6 +240,9 @@ impl Stream for PlanStream {
             if this.done {
                 l.polls_after_done += 1;
             }
+        }
+        if let Some(id) = this.failed_with {
+            return Poll::Ready(Some(Err(HarnessError::Injected(id)))); // unfused: keeps failing
         }
         if this.done {
             return Poll::Ready(None); // fused, as C20's proviso requires.
@@ -241,6 +264,9 @@ impl Stream for PlanStream {
                         FaultKind::Error => {
                             this.done = true;
                             this.log.lock().unwrap().faults_reached.push(f);
+                            if this.spec.unfused_errors {
+                                this.failed_with = Some(f.call * 1000 + f.chunk);
+                            }
                             return Poll::Ready(Some(Err(HarnessError::Injected(f.call * 1000 + f.chunk))));
                         }
                         _ => {}
@@ -329,6 +355,21 @@ impl Stream for PlanStream {
     }
 }
 
+impl PlanStream {
+    fn counted_hint(&self) -> (usize, Option<usize>) {
+        if self.done {
+            return (0, Some(0));
+        }
+        // data chunks still to come under the plan (fault items are NOT counted) + tail steps
+        let chunks = plan_chunk_sizes_from(&self.spec.plan, self.idx, self.end - self.pos, 1 << 16).len();
+        let tails = self.spec.tail.len() - self.tail_idx.min(self.spec.tail.len());
+        // Pending / Empty plan steps in between are items too only for Empty; keep the hint a
+        // lower bound of 0 and an upper bound that ignores injected items.
+        let empties = if chunks > 0 { self.spec.plan.iter().filter(|s| matches!(s, PStep::Empty)).count() * (chunks + 1) } else { 0 };
+        (0, Some(chunks + tails + empties))
+    }
+}
+
 impl http_serve::Entity for ModelEntity {
     type Error = HarnessError;
     type Data = SegBytes;
@@ -358,6 +399,7 @@ impl http_serve::Entity for ModelEntity {
             extra_chunk_done: false,
             tail_idx: 0,
             done: false,
+            failed_with: None,
         })
     }
 
@@ -380,10 +422,14 @@ impl http_serve::Entity for ModelEntity {
 
 /// Number of data chunks a fault-free stream for a range of `n` bytes produces under `plan`.
 pub fn plan_chunk_sizes(plan: &[PStep], n: u64, cap: usize) -> Vec<u64> {
+    plan_chunk_sizes_from(plan, 0, n, cap)
+}
+
+pub fn plan_chunk_sizes_from(plan: &[PStep], start_idx: usize, n: u64, cap: usize) -> Vec<u64> {
     let mut out = Vec::new();
     let has_data = plan.iter().any(|s| matches!(s, PStep::Chunk(_) | PStep::Rest));
     let mut left = n;
-    let mut idx = 0;
+    let mut idx = start_idx;
     while left > 0 && out.len() < cap {
         let step = if has_data { plan[idx % plan.len()] } else { PStep::Rest };
         idx += 1;
